@@ -27,7 +27,7 @@ REQUIRED_CLASSES = {"all": ["commit", "reopen", "attach", "detach", "copy_node_f
 BUDGET_S = {"quick": 900, "thorough": 3 * 3600}
 NSHARD = 16
 QUERIES = [("verif.base", None), ("verif.base", (1, 0, 0)), ("verif.base", (1, 1, 0)), ("verif.base", (2, 0, 0)), ("verif.mid", None),
-           ("verif.leaf", None), ("core.file", None), ("core.person", (0, 1, 0)), ("verifother.thing", None), ("verif.nope", None)]
+           ("verif.leaf", None), ("verif.alpha", None), ("core.file", None), ("core.person", (0, 1, 0)), ("verifother.thing", None), ("verif.nope", None)]
 
 
 def view(sess, t, with_queries=True):
